@@ -2,6 +2,9 @@
 """Regenerates MANIFEST.json from the table below (kept valid at all times)."""
 import json, sys
 CLAIMED = {
+ "C17": dict(level="exploration", tech="round-trip property-based testing of every key encoding + exhaustive single-fault enumeration (truncation, extension, bit flip) on signatures and raw keys, with the primitive crates as independent decoders",
+   text="For generated keys of both algorithms and messages of 0-300 bytes: 16 private-key and 9 public-key encode/decode paths must return the same key and the public key derived independently; a signature verifies exactly under (key, message) and fails for another key, another message and every truncation, extension and single-bit flip; every truncation, extension and single-bit flip of the raw public key (also through the string and protobuf forms), sampled corruptions of private keys, DER and PEM, tag swaps and cross-algorithm decoders give an error or a key an independent decoder also reads; no decoder panics.",
+   note="ed25519-dalek / p256 are the trusted base and the independent decoders; Signature values need the guarded re-export hook", ref="4 C17"),
  "C20": dict(level="exploration", tech="property-based testing with an inverse oracle: a generated ground item is turned into a template by replacing sub-terms with parameters, and binding the removed values back must reproduce the item",
    text="Up to 6 ground sub-terms of a generated fact / rule / check / policy (top-level, nested in arrays and maps, map keys, set elements, expression operands, inside closures, key scopes; shared names across alternatives) are replaced by {name} parameters; the values are bound back through set / set_lenient / set_scope on constructor-built or parsed items, or through code_with_params, a generated subset first left unbound. The bound item must equal the original (via Display -> parse and via token -> print_block_source -> parse), partial items must be refused naming only unbound parameters, unknown names are reported by strict setters only, and no conversion of a bound item may panic.",
    note="values always have the type of the position they came from (binding e.g. a boolean to a map key is outside the generator); macro-side binding is C18's subject", ref="4 C20"),
